@@ -33,6 +33,10 @@ LOGS = [
     ("millineper", "e", (10, -3)),
     ("decabel", "10", (10, 1)),
     ("kibioctave", "2", (2, 10)),
+    # families the library does not ship: "any base"
+    ("base3", "3", None),
+    ("centibase16", "16", (10, -2)),
+    ("base1.5", "1.5", None),
 ]
 
 # (label, magnitude, prefix name, unit spec factors, root-power?, other units the quantity is written in)
@@ -78,7 +82,9 @@ def root_power_model(w, dim):
 def make_log(w, spec):
     name, base, pre = spec
     m = w.m
-    fam = {"10": m.Bel, "e": m.Neper, "2": m.Octave}[base]
+    fam = {"10": m.Bel, "e": m.Neper, "2": m.Octave}.get(base)
+    if fam is None:
+        fam = m.Logarithm(base=float(base) if "." in base else int(base))
     if name == "decibel":
         return m.Decibel
     if name == "semitone":
